@@ -239,6 +239,35 @@ func MetaUnits(thorough bool) []Unit {
 		}
 	}})
 
+	// every (min, max) pair of one axis over a value lattice (the other axis at its default):
+	// the validity of a box is a relation between two numbers, so classes of single values do
+	// not cover it. 4-byte forms (every value is representable there, low two bits zero).
+	us = append(us, Unit{Name: "meta/viewbox-pairs", Each: func(yield func([]byte) bool) {
+		vals := []float32{0, float32(math.Copysign(0, -1)), 1.0 / 64, -1.0 / 64, 1, -1, 24, -24, 24.015625, 23.984375, 127.984375, -128, 128, -128.015625,
+			1e-30, -1e-30, 3e38, -3e38, maxF30, -maxF30, math.Float32frombits(0x00000004), math.Float32frombits(0x80000004), nan32, pinf32, ninf32}
+		if thorough {
+			for e := -20; e <= 20; e += 4 {
+				f := float32(math.Ldexp(1.5, e))
+				vals = append(vals, f, -f)
+			}
+		}
+		var buf, body []byte
+		for axis := 0; axis < 2; axis++ {
+			for _, lo := range vals {
+				for _, hi := range vals {
+					t := [4]float32{-24, -24, 24, 24}
+					// the 4-byte form drops the low two mantissa bits
+					t[axis], t[axis+2] = math.Float32frombits(math.Float32bits(lo)&^3), math.Float32frombits(math.Float32bits(hi)&^3)
+					body, _ = vbBody(body[:0], [4]int{4, 4, 4, 4}, t)
+					buf = BuildMeta(buf, 1, 1, []Chunk{ch(0, body)})
+					if !withTailsAndTruncs(yield, buf, false) {
+						return
+					}
+				}
+			}
+		}
+	}})
+
 	uniform := [4][][]byte{
 		{{0x00}, {0x7c}, {0x7d}, {0x7e}, {0x7f}, {0x80}, {0xc5}, {0x30}, {0xff}},
 		{{0x00, 0x0f}, {0xff, 0xff}, {0x88, 0x88}, {0xf0, 0x08}, {0x12, 0x34}, {0x00, 0x00}},
